@@ -17,10 +17,10 @@ func init() {
 		ID: "C03", Title: "Parsing is total and every diagnostic is located", Level: "model_checking",
 		Units: []Unit{
 			lexUnit([]string{"lexer/c03.go"},
-				Harness{Fn: "ZZC03Lexer", Quick: p("N", 2), Thorough: p("N", 4), ThoroughBudget: 25 * time.Minute, Expect: []string{"eof", "illegal", "ident", "string", "witness:end"}},
+				Harness{Fn: "ZZC03Lexer", Quick: p("N", 2), Thorough: p("N", 3), ThoroughBudget: 10 * time.Minute, Expect: []string{"eof", "illegal", "ident", "string", "witness:end"}},
 			),
 			parserUnit([]string{"parser/c03p.go"},
-				Harness{Fn: "ZZC03Parser", Quick: p("E", 1), Thorough: p("E", 2), ThoroughBudget: 25 * time.Minute, Expect: []string{"accepted", "rejected", "witness:end"}},
+				Harness{Fn: "ZZC03Parser", Quick: p("E", 1), Thorough: p("E", 2), ThoroughBudget: 20 * time.Minute, Expect: []string{"accepted", "rejected", "witness:end"}},
 			),
 		},
 		Assumptions: []string{
